@@ -91,10 +91,20 @@ def ParCrit.notifyFinished (c : ParCrit S) (i : Nat) (depth : Nat) : Option (Par
     | none => none
   else none
 
-/-- `abort_search(reason, current_ub)` (since fix D4): the recorded bound covers the aborting node, every
+/-- `abort_search(reason, current_ub)` (since fixes D4 / D4b): the recorded bound covers the aborting node, every
     node in progress (`upper_bounds`) and the best node left in the fringe (`fringeTop` = the bound of the
-    node `fringe.pop()` hands out, if any); a later abort can only raise it -/
+    node `fringe.pop()` hands out, if any); a later abort can only raise it; and it never ends below the
+    incumbent (which another thread may have raised above the bound of every node left) -/
 def ParCrit.abortSearch (c : ParCrit S) (currentUb : Int) (fringeTop : Option Int) : ParCrit S :=
+  let ub := c.upperBounds.foldl max currentUb
+  let ub := match fringeTop with | some t => max ub t | none => ub
+  let ub := if c.base.abort then max ub c.base.bestUb else ub
+  { c with base := { c.base with abort := true, fringe := [], bestUb := max ub c.base.bestLb } }
+
+/-- the formula between fixes D4 and D4b, kept for the violation witness: without the final `max … best_lb` the
+    bound can end below the incumbent (= the optimum) when another thread improved it after the aborting
+    worker read it -/
+def ParCrit.abortSearchD4 (c : ParCrit S) (currentUb : Int) (fringeTop : Option Int) : ParCrit S :=
   let ub := c.upperBounds.foldl max currentUb
   let ub := match fringeTop with | some t => max ub t | none => ub
   let ub := if c.base.abort then max ub c.base.bestUb else ub
